@@ -44,6 +44,62 @@ pub enum Tier {
 }
 
 static PHASE: Mutex<&'static str> = Mutex::new("idle");
+/// (plan of the run in progress as JSON, when it started, class expected by a replay)
+static WATCH: Mutex<Option<(String, Instant, String)>> = Mutex::new(None);
+
+fn hang_limit() -> std::time::Duration {
+    let s: u64 = std::env::var("VERIF_HANG_LIMIT_S").ok().and_then(|v| v.parse().ok()).unwrap_or(900);
+    std::time::Duration::from_secs(s)
+}
+
+/// Liveness watchdog (wall clock, only as a very generous bound): a run that does not
+/// return is reported by the worker itself, with its plan, and the process ends.
+fn start_watchdog(prop: String, replaying: bool) {
+    std::thread::spawn(move || loop {
+        std::thread::sleep(std::time::Duration::from_millis(500));
+        let stuck = {
+            let w = WATCH.lock().unwrap();
+            match &*w {
+                Some((plan, start, expect)) if start.elapsed() > hang_limit() => Some((plan.clone(), expect.clone())),
+                _ => None,
+            }
+        };
+        if let Some((plan_json, expect)) = stuck {
+            let ph = phase();
+            let class = format!("{}/hang/no-answer-within-the-liveness-bound/{}", prop, ph);
+            let counts = matches!(prop.as_str(), "C07" | "C09" | "C10") && matches!(ph, "search" | "perft");
+            if replaying {
+                if expect == class {
+                    println!("REPRODUCED class={} (no answer within {:?})", class, hang_limit());
+                    std::process::exit(1);
+                }
+                println!("HANG during replay in phase {} (expected class {})", ph, expect);
+                std::process::exit(3);
+            }
+            if !counts {
+                eprintln!("worker stuck for more than {:?} in phase {} of a {} run", hang_limit(), ph, prop);
+                std::process::exit(2);
+            }
+            let plan: Plan = serde_json::from_str(&plan_json).expect("plan json");
+            let sum = Summary {
+                property: prop.clone(),
+                runs: 1,
+                violating_runs: 1,
+                violations: vec![ReplayFile {
+                    property: prop.clone(),
+                    class,
+                    detail: format!("the call did not return within {:?} (phase {})", hang_limit(), ph),
+                    original_ops: plan.ops.len(),
+                    shrink_execs: 0,
+                    plan,
+                }],
+                ..Default::default()
+            };
+            println!("{}", serde_json::to_string(&sum).unwrap());
+            std::process::exit(0);
+        }
+    });
+}
 static LAST_PANIC: Mutex<Option<String>> = Mutex::new(None);
 
 pub fn set_phase(p: &'static str) {
@@ -302,6 +358,7 @@ fn main() {
                 std::process::exit(2);
             }
             let t0 = Instant::now();
+            start_watchdog(match prop.as_str() { "C14CLI" => "C14".to_string(), "C10CLI" => "C10".to_string(), "C19CLI" => "C19".to_string(), p => p.to_string() }, false);
             let mut sum = Summary {
                 property: prop.clone(),
                 tier: format!("{:?}", tier).to_lowercase(),
@@ -318,7 +375,9 @@ fn main() {
                     break;
                 }
                 let plan = gen_plan(&prop, seed, index, tier);
+                *WATCH.lock().unwrap() = Some((serde_json::to_string(&plan).unwrap(), Instant::now(), String::new()));
                 let o = exec(&plan);
+                *WATCH.lock().unwrap() = None;
                 sum.runs += 1;
                 sum.oracle_evals += o.oracle_evals;
                 if o.oracle_evals > 1 {
@@ -385,7 +444,10 @@ fn main() {
                 eprintln!("cannot parse {}: {}", file, e);
                 std::process::exit(2)
             });
+            start_watchdog(rf.property.clone(), true);
+            *WATCH.lock().unwrap() = Some((serde_json::to_string(&rf.plan).unwrap(), Instant::now(), rf.class.clone()));
             let o = exec(&rf.plan);
+            *WATCH.lock().unwrap() = None;
             match o.violation {
                 Some(v) if v.class == rf.class => {
                     println!("REPRODUCED class={} at_op={} detail={}", v.class, v.at_op, v.detail);
